@@ -390,6 +390,10 @@ class _DataFiles:
                         result.append(pickle.load(input_file))
                 except EOFError:
                     pass
+                except pickle.UnpicklingError:
+                    # The file was not written completely (for instance the
+                    # process died while saving); keep what could be read.
+                    pass
                 if len(result) == 1:
                     return result[0]
                 if len(result) > 1:
